@@ -45,6 +45,8 @@ pub struct PolicyState<B, C> {
     cmd_tx: mpsc::Sender<PolicyCmd>,
     channel_senders: Vec<mpsc::Sender<Vec<u8>>>,
     channel_receivers: Option<Vec<tokio::sync::Mutex<mpsc::Receiver<Vec<u8>>>>>,
+    // the spawned task that sends our constants to the other parties (state SendingConsts)
+    consts_task: Option<tokio::task::JoinHandle<()>>,
     start_span: Option<Span>,
     #[cfg(polytune_verif)]
     verif_tag: u64,
@@ -80,6 +82,7 @@ where
                 cmd_tx: cmd_tx.clone(),
                 channel_senders: vec![],
                 channel_receivers: None,
+                consts_task: None,
                 start_span: None,
                 #[cfg(polytune_verif)]
                 verif_tag: 0,
@@ -728,7 +731,7 @@ where
                 #[cfg(polytune_verif)]
                 let verif_tag = self.verif_tag;
                 if !policy_cl.constants.is_empty() {
-                    tokio::spawn(
+                    self.consts_task = Some(tokio::spawn(
                         async move {
                             #[cfg(polytune_verif)]
                             crate::verif::gate("consts_task", "", verif_tag).await;
@@ -763,7 +766,7 @@ where
                             let _ = cmd_sender.send(PolicyCmd::InternalConstsSent).await;
                         }
                         .in_current_span(),
-                    );
+                    ));
                 } else {
                     // No constants to send
                     let _ = client_send.send(client);
@@ -1131,7 +1134,7 @@ where
     C: PolicyClient,
 {
     #[tracing::instrument(level = Level::WARN, skip_all, fields(?self.state_kind))]
-    async fn cancel(self, ret: Ret<CancelError>) {
+    async fn cancel(mut self, ret: Ret<CancelError>) {
         let (client, policy) = match self.state_kind {
             PolicyStateKind::Init | PolicyStateKind::ValidateRequested { .. } => {
                 let _ = ret.send(Ok(()));
@@ -1139,12 +1142,29 @@ where
             }
             PolicyStateKind::SendingConsts {
                 policy,
-                client_recv,
+                mut client_recv,
                 ..
             } => {
-                let Ok(client) = client_recv.await else {
-                    ret_err(ret, CancelError::ClientNotAvailable);
-                    return;
+                // Never wait for the task that is sending our constants to complete its calls:
+                // it may be waiting for a peer whose state machine is itself blocked in
+                // cancel(), waiting for its own task, which waits for an answer from us.
+                // Stop the task instead; if that interrupted it, it has not handed back its
+                // client (and has not notified the output destination), so use a new client.
+                let interrupted = match self.consts_task.take() {
+                    Some(task) => {
+                        task.abort();
+                        matches!(task.await, Err(err) if err.is_cancelled())
+                    }
+                    None => false,
+                };
+                let client = if interrupted {
+                    self.client_builder.new_client(&policy)
+                } else {
+                    let Ok(client) = client_recv.try_recv() else {
+                        ret_err(ret, CancelError::ClientNotAvailable);
+                        return;
+                    };
+                    client
                 };
                 (client, policy)
             }
